@@ -51,6 +51,12 @@ def c10(tier, seed):
     out.append({'line': './pargs "a$?b"', 'files': {'pargs': PARGS}, 'expect_stdout': _argv(['a0b']), 'area': 'expand_env:status'})
     out.append({'line': "sh -c 'echo $PPID' > f; X=$(cat f); ./pargs \"$$\" > g; Y=$(cat g); test \"[$X]\" = \"$Y\" && echo same", 'files': {'pargs': PARGS},
                 'expect_stdout': 'same\n', 'area': 'expand_env:pid'})
+    # single-quoted text is never expanded, also as the value part of a name='...' word (alias definitions, assignments, arguments)
+    for ref in ('$A', '${A}', 'x${A}y', '$A$AB', '${AB}'):
+        out.append({'line': "A=xvalx; AB=yvaly; ./pargs foo='%s'" % ref, 'files': {'pargs': PARGS}, 'expect_stdout_not_contains': 'val',
+                    'expect_stdout_contains': ref, 'area': 'expand_env:single-quoted-value'})
+        out.append({'line': "A=xvalx; AB=yvaly; alias zz='echo %s'; alias zz" % ref, 'files': {'pargs': PARGS}, 'expect_stdout_not_contains': 'val',
+                    'expect_stdout_contains': ref, 'area': 'expand_env:single-quoted-value'})
     # values that contain `$`: inserted values are not scanned again (known: expand_env rescans)
     for v, ref in (('$A', 'A'), ('${A}', 'A'), ('$1', None), ('a$', None), ('$X', 'X')):
         out.append({'line': "A=x; X='%s'; ./pargs \"$X\"" % v, 'files': {'pargs': PARGS}, 'expect_stdout': _argv([v]), 'area': 'expand_env:value-with-dollar', 'timeout': 3})
